@@ -30,6 +30,17 @@ HeldFamilies == {"EC-P256", "EC-P384", "EC-P521", "RSA", "Ed25519"}
 HeldFamiliesSmall == {"EC-P256", "RSA", "Ed25519"}
 EcFamilies == {"EC-P256", "EC-P384", "EC-P521"}
 
+\* request key ids no key is bound to (the driver derives the near misses from a kid / storage name that exists in the store)
+MCKidClasses == {"empty", "unknown", "prefix", "suffixed", "upper", "padded", "sqlwild", "sqlany", "name", "pct"}
+MCKidClassesSmall == {"empty", "unknown", "prefix", "sqlwild"}
+\* caller supplied kid header that is not a kid of the model (the kids of the model are added by the spec: same / another key's)
+MCHdrKidClasses == {"none", "unbound", "empty"}
+MCHdrKidNone == {"none"}   \* for the descriptive generation config: the kids of the model only (KeyStore.gen.byid.cfg has all)
+
+\* for the generation config of the by-key-id dimension: no jwk header / a public one (the artefact then carries no kid)
+MCJwkClassesTiny == {<<"none", "-">>, <<"pub", "EC-P256">>}
+EcOnly == {"EC-P256"}
+
 AllDone == ops = MaxOps
 EmitOps == (AllDone /\ Hist) => PrintT(ToJson(hist))
 =============================================================================
